@@ -141,27 +141,30 @@ def rule_slot_rectangle(mod, rep):
 # RELAX-BOUND (C05): a relaxed supernode has at most `relax` columns
 # ---------------------------------------------------------------------------------------------------------------------------------
 def rule_relax_bound(mod, rep):
-    rep.rule("RELAX-BOUND", "pxgstrf_relax_snode: the walk up the etree continues only while desc[parent] < relax (strictly), so a relaxed supernode has at most relax columns - "
-             "StatAlloc sizes panel_histo[] with max(panel_size, relax) + 1 entries and ParallelInit counts panel_histo[w]", floor=1)
-    f = mod.funcs.get("pxgstrf_relax_snode")
-    if f is None:
+    from .ext import _owned_helpers
+    rep.rule("RELAX-BOUND", "pxgstrf_relax_snode (and static helpers it owns): the walk up the etree continues only while desc[parent] < relax (strictly), so a relaxed supernode "
+             "has at most relax columns - StatAlloc sizes panel_histo[] with max(panel_size, relax) + 1 entries and ParallelInit counts panel_histo[w]", floor=1)
+    f0 = mod.funcs.get("pxgstrf_relax_snode")
+    if f0 is None:
         rep.brk("ANALYSIS-BROKEN RELAX-BOUND: pxgstrf_relax_snode not found")
         return
-    rep.scope([f.name])
     n = 0
-    for C in f.insts():
-        if C.op != "icmp" or C.pred not in _PRED:
-            continue
-        ops = [strip_casts(f, o) for o in C.ops]
-        for k in (0, 1):
-            o = ops[k]; r = ops[1 - k]
-            is_desc = o[0] == "v" and f.inst[o[1]].op == "load" and any(p[0][0] == "C" and p[-1] == ("i",) for p in f.addr_paths(f.inst[o[1]]))
-            is_relax = r[0] == "v" and f.inst[r[1]].op == "load" and any(p[-1][0] == "f" and p[-1][2] == "relax" for p in f.addr_paths(f.inst[r[1]])) or (r[0] == "v" and (f.inst[r[1]].dn == "relax"))
-            if is_desc and is_relax:
-                # loop-continue edge
+    for f in [f0] + [h for (h, c, g) in _owned_helpers(mod, f0)]:
+        rep.scope([f.name])
+        for C in f.insts():
+            if C.op != "icmp" or C.pred not in _PRED:
+                continue
+            ops = [strip_casts(f, o) for o in C.ops]
+            for k in (0, 1):
+                o = ops[k]; r = ops[1 - k]
+                # the descendant count: an element of an integer array (local allocation or array parameter), indexed by a non-constant
+                is_desc = o[0] == "v" and f.inst[o[1]].op == "load" and any(p[-1] == ("i",) and (p[0][0] == "C" or (p[0][0] == "A" and len(p) == 2)) for p in f.addr_paths(f.inst[o[1]]))
+                is_relax = (r[0] == "v" and (f.inst[r[1]].dn == "relax" or (f.inst[r[1]].op == "load" and any(p[-1][0] == "f" and p[-1][2] == "relax" for p in f.addr_paths(f.inst[r[1]]))))) \
+                    or (r[0] == "a" and f.pname(r[1]) == "relax")
+                if not (is_desc and is_relax):
+                    continue
                 edges = list(branch_edges_on(f, C))
                 if not edges:
-                    # short-circuit form: the comparison feeds a phi of the join block, which is branched on (phi is false on the other incoming edges)
                     for u in f.uses.get(C.i, []):
                         if u.op == "phi":
                             edges += list(branch_edges_on(f, u))
@@ -562,3 +565,297 @@ def rule_marker_kind(mod, rep):
                   "rows are skipped and the reserved slot is too small", x.loc, f.name)
     if n == 0:
         rep.brk("ANALYSIS-BROKEN MARKER-KIND: no access to marker[] in pxgstrf_super_bnd_dfs")
+
+
+# ---------------------------------------------------------------------------------------------------------------------------------
+# MEM-BYTES: the length of a memset / memcpy over a typed array is a multiple of the element size
+# ---------------------------------------------------------------------------------------------------------------------------------
+_ELEM = {"i32": 4, "i64": 8, "float": 4, "double": 8, "i16": 2}
+
+
+def rule_mem_bytes(mod, rep, floor=0):
+    rep.rule("MEM-BYTES", "llvm.memset / memcpy / memmove with a computed length over an array of int_t / float / double / complex elements: every term of the length is a multiple "
+             "of the element size (count * sizeof(element)); a bare element count clears or copies only part of the array", floor=floor)
+    # positive example (the rule has no instance on today's tree): one good and one bad memset must be told apart on every run
+    import os
+    from .. import build as _b, ir as _ir
+    try:
+        pm = _ir.Module(_b.build_snippet(os.path.join(os.path.dirname(_b.IRDUMP), "positive", "membytes.c")))
+        verdicts = {fn: [ok for ok, _ in _mem_bytes_of(pm.funcs[fn])] for fn in ("membytes_good", "membytes_bad", "membytes_good_d")}
+        if verdicts != {"membytes_good": [True], "membytes_bad": [False], "membytes_good_d": [True]}:
+            rep.brk("ANALYSIS-BROKEN MEM-BYTES: positive example misjudged: %r" % verdicts)
+        else:
+            rep.note("MEM-BYTES positive example sa/positive/membytes.c: good/bad memset told apart")
+    except Exception as e:
+        rep.brk("ANALYSIS-BROKEN MEM-BYTES: positive example failed: %s" % e)
+    for f in mod.funcs.values():
+        for ok, (c, cal, poly, el) in _mem_bytes_of(f):
+            from .layout import pfmt
+            rep.scope([f.name])
+            rep.check(ok, "MEM-BYTES", "%s#%s@%s" % (f.name, cal.split(".")[1], c.ln), "length %s is a multiple of the element size %d" % (pfmt(poly), el),
+                      "the length %s is not a multiple of the element size %d: an element count was passed where a byte count is needed" % (pfmt(poly), el), c.loc, f.name)
+
+
+def _mem_bytes_of(f):
+    if True:
+        P = None
+        for c in f.calls():
+            cal = c.callee or ""
+            if not cal.startswith(("llvm.memset", "llvm.memcpy", "llvm.memmove")):
+                continue
+            ln = strip_casts(f, c.ops[2])
+            if ln[0] == "c":
+                continue
+            d = strip_casts(f, c.ops[0])
+            ty = f.otype(d) or ""
+            el = None
+            base = ty.rstrip("*")
+            if ty.endswith("*"):
+                if base in _ELEM:
+                    el = _ELEM[base]
+                elif base.startswith("%struct.complex") or base.startswith("%struct.doublecomplex") or base.startswith("{"):
+                    el = 16 if "double" in base else 8
+            if el is None:
+                continue
+            P = P or _Poly(f)
+            poly = P.of(ln)
+            yield all(v % el == 0 for v in poly.values()), (c, cal, poly, el)
+
+
+# ---------------------------------------------------------------------------------------------------------------------------------
+# REL-RANGE (C04 C03), RELAX-WHOLE (C04), PTR-SHIFT (C10)
+# ---------------------------------------------------------------------------------------------------------------------------------
+def rule_release_range(mod, rep):
+    from .threads import loop_bound
+    rep.rule("REL-RANGE", "p?gstrf_thread: the loop that releases a relaxed supernode runs over jcol .. jcol + pan_status[jcol].size - 1: its bound is jcol plus the loaded size "
+             "itself (every column the scheduler locked is released)", floor=4)
+    for prec, f in fam(mod, "p?gstrf_thread"):
+        rep.scope([f.name])
+        found = False
+        for h, body in f.loops():
+            rel = [s for b in body for s in f.blocks[b].insts if s.op == "store" and is_const(s.ops[0], 0) and addr_is_elem_of(f, s, "spin_locks")]
+            if not rel or any(x.op == "call" and not (x.callee or "").startswith("llvm.dbg") for b in body for x in f.blocks[b].insts):
+                continue
+            lb = loop_bound(f, h, body)
+            if not lb:
+                continue
+            found = True
+            bv = strip_casts(f, lb[2])
+            ok = False
+            if bv[0] == "v" and f.inst[bv[1]].op == "add":
+                parts = [strip_casts(f, o) for o in f.inst[bv[1]].ops]
+                sz = [o for o in parts if o[0] == "v" and f.inst[o[1]].op == "load" and addr_has_field(f, f.inst[o[1]], "size", "pan_status_t")]
+                ok = len(sz) == 1
+            rep.check(ok, "REL-RANGE", "%s#relaxed-release" % f.name, "release loop bound is jcol + pan_status[jcol].size",
+                      "the release loop is bounded by something other than jcol + pan_status[jcol].size (a clamped or recomputed width): trailing columns of a wide relaxed supernode "
+                      "stay locked and a pipelined parent spins forever", f.blocks[h].insts[-1].loc, f.name)
+        if not found:
+            rep.brk("ANALYSIS-BROKEN REL-RANGE: release loop not found in %s" % f.name)
+
+
+def rule_relaxed_whole(mod, rep):
+    rep.rule("RELAX-WHOLE", "ParallelInit: a relaxed supernode becomes one panel of exactly pxgstrf_relax[rs].size columns - on every path that enters the relaxed branch the value "
+             "stored as the leading column's pan_status[i].size is that loaded size, unmodified (splitting / trimming applies to regular panels only: the columns cut off a "
+             "relaxed supernode would be regular panels that never become ready)", floor=1)
+    f = mod.funcs.get("ParallelInit")
+    if f is None:
+        rep.brk("ANALYSIS-BROKEN RELAX-WHOLE: ParallelInit not found")
+        return
+    rep.scope([f.name])
+    kr = f.pindex("pxgstrf_relax")
+    # the relaxed test: icmp eq (load relax[rs].<field0>, i)
+    tests = []
+    for C in f.insts():
+        if C.op == "icmp" and C.pred in ("eq", "ne"):
+            for o in C.ops:
+                o = strip_casts(f, o)
+                if o[0] == "v" and f.inst[o[1]].op == "load" and any(p[0] == ("A", kr) for p in f.addr_paths(f.inst[o[1]])):
+                    for blk, t_true, t_false in branch_edges_on(f, C):
+                        if any(blk.id in body for h, body in f.loops()):
+                            tests.append((C, blk, t_true if C.pred == "eq" else t_false))
+    # size loads of the relax table (second field)
+    def is_relax_size(o):
+        o = strip_casts(f, o)
+        if o[0] != "v" or f.inst[o[1]].op != "load":
+            return False
+        a = strip_casts(f, f.inst[o[1]].ops[0])
+        g = f.inst[a[1]] if a[0] == "v" else None
+        return g is not None and g.op == "getelementptr" and g.gep and g.gep[-1].get("k") == "fld" and g.gep[-1].get("i") == 1 and any(p[0] == ("A", kr) for p in f.addr_paths(f.inst[o[1]]))
+    done = 0
+    for (C, blk, tgt) in tests:
+        loops = sorted([(h, body) for h, body in f.loops() if blk.id in body], key=lambda hb: len(hb[1]))
+        if not loops:
+            continue
+        h, body = loops[-1] if len(loops) == 1 else loops[0]
+        # blocks reachable on relaxed paths within this iteration
+        reach = set(); work = [tgt]
+        while work:
+            b = work.pop()
+            if b in reach or b == h or b not in body:
+                continue
+            reach.add(b)
+            for s_ in f.blocks[b].succ:
+                work.append(s_.id)
+        preds_ok = reach | {blk.id}
+        def resolve(o, depth=0):
+            o = strip_casts(f, o)
+            if o[0] == "v" and f.inst[o[1]].op == "phi" and depth < 8:
+                x = f.inst[o[1]]
+                if x.bb.id in reach:
+                    vals = [resolve(z, depth + 1) for z, pb in zip(x.ops, x.inb) if pb in preds_ok]
+                    keys = {repr(v) for v in vals}
+                    if len(keys) == 1:
+                        return vals[0]
+                    return ("ambiguous", x.i)
+            return o
+        sts = [s for b in reach for s in f.blocks[b].insts if s.op == "store" and addr_has_field(f, s, "size", "pan_status_t")]
+        # the leading-column store: its value is not the descending counter of the fill loop (a phi of an inner loop header)
+        lead = [s for s in sts if not any(s.bb.id in b2 and len(b2) < len(body) for h2, b2 in f.loops())]
+        for s in lead:
+            done += 1
+            v = resolve(s.ops[0])
+            ok = not (isinstance(v, tuple) and v and v[0] == "ambiguous") and is_relax_size(v)
+            rep.check(ok, "RELAX-WHOLE", "ParallelInit#relaxed-size", "a relaxed supernode's panel size is pxgstrf_relax[rs].size on every relaxed path",
+                      "on a path through the relaxed branch the stored panel size can differ from pxgstrf_relax[rs].size (it is trimmed after the branches join)", s.loc, f.name)
+    if done == 0:
+        rep.brk("ANALYSIS-BROKEN RELAX-WHOLE: leading-column size store on the relaxed path not found")
+
+
+def rule_ptr_shift(mod, rep):
+    from .threads import loop_bound
+    rep.rule("PTR-SHIFT", "get_perm_c: the conversion of the adjacency structure between 0-based and 1-based numbering for GENMMD shifts all n+1 column pointers "
+             "(the loop over b_colptr[i] visits i = n as well)", floor=1)
+    f = mod.funcs.get("get_perm_c")
+    if f is None:
+        rep.brk("ANALYSIS-BROKEN PTR-SHIFT: get_perm_c not found")
+        return
+    rep.scope([f.name])
+    n = 0
+    for h, body in f.loops():
+        lb = loop_bound(f, h, body)
+        if not lb:
+            continue
+        # body: store arr[i] := load arr[i] + 1 with arr the local b_colptr
+        for b in body:
+            for s in f.blocks[b].insts:
+                if s.op != "store":
+                    continue
+                v = strip_casts(f, s.ops[0])
+                if v[0] != "v" or f.inst[v[1]].op != "add" or not any(is_const(z, 1) for z in f.inst[v[1]].ops):
+                    continue
+                idx = gep_index(f, s.ops[1])
+                if idx is None or strip_casts(f, idx) != ["v", lb[0].i]:
+                    continue
+                # is the array b_colptr?  its pointer is loaded from the local named b_colptr
+                a = strip_casts(f, s.ops[1])
+                g = f.inst[a[1]] if a[0] == "v" else None
+                basep = strip_casts(f, g.ops[0]) if g is not None and g.op == "getelementptr" else None
+                nm = None
+                if basep and basep[0] == "v" and f.inst[basep[1]].op == "load":
+                    cell = strip_casts(f, f.inst[basep[1]].ops[0])
+                    if cell[0] == "v" and f.inst[cell[1]].op == "alloca":
+                        nm = f.inst[cell[1]].dn
+                if nm != "b_colptr":
+                    continue
+                n += 1
+                pr = _PRED.get(lb[1])
+                bnd = strip_casts(f, lb[2])
+                # bound must be n itself with <=, or n + 1 with <
+                P = _Poly(f)
+                poly = P.of(lb[2])
+                covers = False
+                if pr is not None:
+                    const = poly.get((), 0)
+                    syms = {k: v for k, v in poly.items() if k}
+                    if len(syms) == 1 and list(syms.values())[0] == 1:
+                        # counter value n: stays in the loop?
+                        covers = (lb[1] in ("sle", "ule") and const >= 0) or (lb[1] in ("slt", "ult") and const >= 1)
+                rep.check(covers, "PTR-SHIFT", "get_perm_c#b_colptr-shift", "the shift covers b_colptr[0..n]",
+                          "the loop that renumbers b_colptr[] stops before i = n: b_colptr[n] keeps the other numbering and GENMMD sees a wrong adjacency length for the last vertex",
+                          f.blocks[h].insts[-1].loc, f.name)
+    if n == 0:
+        rep.brk("ANALYSIS-BROKEN PTR-SHIFT: no renumbering loop over b_colptr[] in get_perm_c")
+
+
+# ---------------------------------------------------------------------------------------------------------------------------------
+# PANEL-COL (C16 C01 C05): inside a per-column loop of a panel, a w-wide array is addressed at the current column
+# ---------------------------------------------------------------------------------------------------------------------------------
+_WWIDE = ("dense", "repfnz", "panel_lsub", "spa_marker", "w_lsub_end")
+
+
+def rule_panel_column(mod, rep, pats=("p?gstrf_panel_bmod", "p?gstrf_panel_dfs"), floor=40):
+    from .threads import loop_bound
+    rep.rule("PANEL-COL", "p?gstrf_panel_dfs / p?gstrf_panel_bmod: in a loop over the columns jj = jcol .. jcol+w-1 of the panel, every access to a w-wide work array "
+             "(dense, repfnz, panel_lsub, spa_marker: m-by-w; w_lsub_end: w) is made at an address that is a function of the loop's own induction values (the column cursor "
+             "stepping by m, or jj - jcol) through pointer / integer arithmetic only - an address that is the same in every iteration reads and writes column jcol's slice for "
+             "every column", floor=floor)
+    for pat in pats:
+        for prec, f in fam(mod, pat):
+            rep.scope([f.name])
+            kj, kw = f.pindex("jcol"), f.pindex("w")
+            roots = {f.pindex(n): n for n in _WWIDE if f.pindex(n) is not None}
+            for h, body in f.loops():
+                lb = loop_bound(f, h, body)
+                if not lb:
+                    continue
+                bv = strip_casts(f, lb[2])
+                if not (bv[0] == "v" and f.inst[bv[1]].op == "add" and {tuple(strip_casts(f, o)) for o in f.inst[bv[1]].ops} == {("a", kj), ("a", kw)}):
+                    continue
+                # values that are functions of this loop's header phis through arithmetic (not through memory)
+                dep = {x.i for x in f.blocks[h].insts if x.op == "phi"}
+                changed = True
+                order = [x for b in sorted(body) for x in f.blocks[b].insts]
+                while changed:
+                    changed = False
+                    for x in order:
+                        if x.i in dep or x.op in ("load", "call", "store", "br", "switch"):
+                            continue
+                        if any(o[0] == "v" and o[1] in dep for o in x.ops):
+                            dep.add(x.i); changed = True
+                for x in order:
+                    if x.op not in ("load", "store"):
+                        continue
+                    aop = x.ops[0] if x.op == "load" else x.ops[1]
+                    rs = {p[0][1] for p in f.addr_paths(x) if p and p[0][0] == "A"} & set(roots)
+                    if not rs:
+                        continue
+                    a = strip_casts(f, aop)
+                    ok = a[0] == "v" and a[1] in dep
+                    nm = roots[sorted(rs)[0]]
+                    rep.check(ok, "PANEL-COL", "%s#%s@%s:%s" % (f.name, nm, h, x.ln), "%s is addressed at the current panel column" % nm,
+                              "inside the loop over the panel's columns '%s' is accessed at an address that does not change with the column: every column works on the slice of the "
+                              "first one" % nm, x.loc, f.name)
+
+
+# ---------------------------------------------------------------------------------------------------------------------------------
+# SEG-SCAN (C16 C01): the search for the leading nonzero of a U-segment visits every column of the supernode
+# ---------------------------------------------------------------------------------------------------------------------------------
+def rule_segment_scan(mod, rep, pats=("p?gstrf_panel_bmod",), floor=4):
+    from .threads import loop_bound
+    rep.rule("SEG-SCAN", "p?gstrf_panel_bmod: the loop that searches a busy supernode [fsupc..krep] for the leading nonzero of the U-segment (it records its own counter in repfnz[krep]) "
+             "advances the counter by exactly 1: the columns of a supernode are contiguous but need not form a path in the elimination tree", floor=floor)
+    for pat in pats:
+        for prec, f in fam(mod, pat):
+            rep.scope([f.name])
+            kr = f.pindex("repfnz")
+            n = 0
+            loops = dict(f.loops())
+            for h, body in loops.items():
+                hit = []; ph = None
+                # the store sits on the exit path (`break` after recording the column): look at every store of a header phi of this loop
+                for s in f.insts():
+                    if s.op == "store" and any(p and p[0] == ("A", kr) for p in f.addr_paths(s)):
+                        v = strip_casts(f, s.ops[0])
+                        if v[0] == "v" and f.inst[v[1]].op == "phi" and f.inst[v[1]].bb.id == h and f.inst[v[1]].ty.startswith("i"):
+                            hit.append(s); ph = f.inst[v[1]]
+                if not hit:
+                    continue
+                n += 1
+                inl = [strip_casts(f, o) for o, b in zip(ph.ops, ph.inb) if b in body]
+                ok = bool(inl) and all(o[0] == "v" and f.inst[o[1]].op == "add" and any(strip_casts(f, z) == ["v", ph.i] for z in f.inst[o[1]].ops)
+                                       and any(is_const(z, 1) for z in f.inst[o[1]].ops) for o in inl)
+                rep.check(ok, "SEG-SCAN", "%s#leading-nonzero" % f.name, "the scan steps through fsupc..krep one column at a time",
+                          "the scan for the leading nonzero of the U-segment does not advance by 1 (it follows another relation between columns): a nonzero in a skipped column is "
+                          "missed, repfnz[krep] stays EMPTY or too large and the update of that segment is lost", hit[0].loc, f.name)
+            if n == 0:
+                rep.brk("ANALYSIS-BROKEN SEG-SCAN: no leading-nonzero scan found in %s" % f.name)
